@@ -69,3 +69,16 @@ def random_rotation(rng):
     return np.array([[a*a+b*b-c*c-d*d, 2*(b*c-a*d), 2*(b*d+a*c)],
                      [2*(b*c+a*d), a*a-b*b+c*c-d*d, 2*(c*d-a*b)],
                      [2*(b*d-a*c), 2*(c*d+a*b), a*a-b*b-c*c+d*d]])
+
+
+def make_particle(energy, em_frac, had_frac, vertex=(0.0, 0.0, -500.0), direction=(0.0, 0.0, 1.0), pid="nu_e"):
+    """A real pyrex Particle whose interaction is a stub with fixed shower fractions."""
+    from pyrex.particle import Particle
+
+    class FixedInteraction:
+        def __init__(self, particle, kind=None):
+            self.em_frac = em_frac
+            self.had_frac = had_frac
+            self.kind = None
+            self.inelasticity = had_frac
+    return Particle(pid, tuple(vertex), tuple(direction), energy, interaction_model=FixedInteraction)
